@@ -140,6 +140,15 @@ def replay_unary(chk, mp, out, tagname):
             chk.violation("machine/%s/pow_int" % tagname,
                           "real mpf_pow_int disagrees with the model transition: pow_int(%r, %d, %d, %r) = %r, model %r" % (x, nn, p, rnd, got, want),
                           {"machine": {"op": "pow_int", "x": list(x), "n": nn, "p": p, "rnd": rnd, "want": list(want)}})
+    for raw in tlc.parse_tuples(out, "S"):
+        v = parse_value(raw)
+        x = mpf_of(*v[1:5]); p = v[5]; rnd = v[6]; want = mpf_of(*v[7:11])
+        got = tuple(L.mpf_sqrt(x, p, rnd))
+        n += 1; chk.count(); chk.distinct(("machine", tagname, "sqrt", x, p, rnd), x[1] != 0)
+        if got != want:
+            chk.violation("machine/%s/sqrt" % tagname,
+                          "real mpf_sqrt disagrees with the model transition (= the correctly rounded root): sqrt(%r, %d, %r) = %r, model %r" % (x, p, rnd, got, want),
+                          {"machine": {"op": "sqrt", "x": list(x), "p": p, "rnd": rnd, "want": list(want)}})
     for raw in tlc.parse_tuples(out, "R"):
         v = parse_value(raw)
         x = mpf_of(*v[1:5]); rnd = v[5]; want = mpf_of(*v[6:10])
@@ -177,6 +186,10 @@ def replay_one(mp, rec):
     x = tuple(m["x"]); y = tuple(m.get("y", ()))
     if m["op"] == "pow_int":
         got = tuple(L.mpf_pow_int(tuple(m["x"]), m["n"], m["p"], m["rnd"])); want = tuple(m["want"])
+        print("transition:", m); print("real:", got, "model:", want)
+        return got == want
+    if m["op"] == "sqrt":
+        got = tuple(L.mpf_sqrt(tuple(m["x"]), m["p"], m["rnd"])); want = tuple(m["want"])
         print("transition:", m); print("real:", got, "model:", want)
         return got == want
     if m["op"] == "round_int":
